@@ -121,15 +121,13 @@ AllDone == \A p \in Procs : pc[p] = "exited"
 \* decoded may be called "unreadable input" (1) or a failed generation (2); the help text documents 3 for an existing
 \* --output target while the statement lists only 0 / 1 / 2: both are accepted.
 WantExit(p) == IF BadInput(p) THEN 1 ELSE IF ParseFail(p) \/ LibExit(p) \/ Undecodable(p) \/ EmitFail(p) \/ Fault(p) \in {"fsize", "fsizerep"} THEN 2 ELSE 0
-\* an own report definition that the library refuses: the command succeeds (F44); calling it a failed generation (2, nothing
-\* emitted, nothing left behind) would also honour the statement
+\* an own report definition whose file name the library would refuse: the command does not generate it, so it succeeds (F44, F90)
 \* diagnostics that cannot be written (stderr on a full device): the statement does not say whether that is a failure of its own;
 \* the wanted status or a failure status is accepted -- but nothing may stay behind (NoTrace) and stdout carries the report or nothing
 \* an interrupted run: the statement names no status for it (the shell convention is 130, click's is 1); the run may also
 \* have got through before the signal arrived
 AllowedExit(p) == IF Fault(p) \in Signals THEN {WantExit(p), 1, 2, 129, 130, 143} ELSE      \* (2: the run the signal ended counts as a failed generation)
                   IF sit[p].out = "stderrfull" THEN {WantExit(p), 1, 2} ELSE
-                  IF sit[p].own = "badname" /\ WantExit(p) = 0 THEN {0, 2} ELSE
                   IF Undecodable(p) THEN {1, 2} ELSE IF ~BadInput(p) /\ ~ParseFail(p) /\ ~LibExit(p) /\ sit[p].out = "exists" THEN {2, 3} ELSE {WantExit(p)}
 ExitContract == \A p \in Procs : pc[p] = "exited" =>
    /\ exit[p] = WantExit(p) \/ (Fault(p) \in Signals /\ exit[p] = 130)
